@@ -49,7 +49,14 @@ DEFAULTS = dict(
     p_call_idb=0.0,      # a call prefers an intensional predicate (deeper plans)
     p_reuse_pick=0.0,    # inside a scope built with sibling reuse a new local takes a freed
     #                      sibling name with this probability (else: uniform over free names)
+    inj_distinct_args=False,  # True: the arguments of one injectible call are pairwise
+    #                      different texts (else a literal) and outputs are fresh variables:
+    #                      `J(w, w, w)` for `J(g, v, h) :- h == v` injects the same-text
+    #                      equation `w == w`, dropped by the compiler, unknown in SQL on null
     p_inj_feed=0.0,      # an input of an extra injectible call is an output of an earlier one
+    null_in_single_fact=True,   # False: a one-fact table (it gets injected) has no null; a
+    #                      join on its null column is the same-text equation `null == null`
+    #                      of DESIGN 6, dropped by the compiler, unknown in SQL
     p_graph_edb=0.0,     # fact table over a closed 3-value domain (`F(F(x))` stays defined)
     p_hazard_rule=0.0,   # share of intensional predicates that are small rules built around
     #                      calls of injectibles (see Gen.idb_hazard)
@@ -198,7 +205,8 @@ class Gen(object):
             row = list(rng.choice(pool))
             if spread is not None:
                 row[spread[0]] = ('lit', spread[1][i_row])
-            if self.o['p_null_fact'] and len(row) > 1:
+            if self.o['p_null_fact'] and len(row) > 1 and (
+                    n > 1 or self.o['null_in_single_fact']):
                 for i in range(1, len(row)):
                     if types[i] in ATOMS and self.chance(self.o['p_null_fact']):
                         row[i] = ('lit', None)
@@ -351,6 +359,8 @@ class Gen(object):
                 self.labels.add('inj_output_feeds_inj_input')
             if a is None:
                 a = self.expr(pt, env, depth - 1, False)
+            if self.o['inj_distinct_args'] and a[0] != 'lit' and a in [x for _, x in args]:
+                a = self.lit_of(pt)
             args.append((i, a))
         return ('fcall', n, tuple(args))
 
@@ -614,6 +624,16 @@ class Gen(object):
         if rng.random() < 0.25:
             body.append(('cmp', rng.choice(['<', '<=', '>', '>=', '!=']), ('var', y),
                          self.lit_of(yt)))
+        if self.o['nest_depth'] >= 2 and self._nest == 0 and rng.random() < 0.3:
+            # a scope nested in this one and correlated with ITS local: `~T(y, z)`
+            self._nest += 1
+            try:
+                nested = self.keyed_negation(inner, y)
+            finally:
+                self._nest -= 1
+            if nested:
+                body.append(nested)
+                self.labels.add('nested_scope_reads_enclosing_local')
         ops = [x for x in self.o['agg_ops'] if x in (
             ('Sum', 'Min', 'Max', '+', 'Min', 'Max') if yt == 'N' else ('Min', 'Max'))]
         op = rng.choice(ops or ['Max'])
@@ -741,7 +761,10 @@ class Gen(object):
                     self.labels.add('inj_output_feeds_inj_input')
                 else:
                     args.append((i, self.expr(pt, dict(env), 1, allow_fcall=False)))
-            elif n in getattr(self, 'inj_hot', ()):
+                if self.o['inj_distinct_args'] and args[-1][1][0] != 'lit' and \
+                        args[-1][1] in [a for _, a in args[:-1]]:
+                    args[-1] = (i, self.lit_of(pt))
+            elif n in getattr(self, 'inj_hot', ()) or self.o['inj_distinct_args']:
                 # output computed by a combine: always a fresh variable (unified with a
                 # bound one it would be the D11 class: a variable equated with an
                 # aggregate that may be derived from it)
@@ -1185,6 +1208,20 @@ class Gen(object):
                 first = self.graphs
             body = [self.call(env, name=rng.choice(first), fresh_only=True)]
             keys = [(v, t) for v, t in env.items() if t in ATOMS]
+            if keys and rng.random() < 0.3:
+                # one more key drawn from a list (an unnesting travels with the injection)
+                kv, kt = rng.choice(keys)
+                pool = [x for x in self.colvals.get((body[0][1], body[0][2][0][0]), ())
+                        if x != ('lit', None)] or [self.lit_of(kt)]
+                els = [self.lit_of(kt) if rng.random() < 0.3 else rng.choice(
+                    [x for k2, xs in self.colvals.items() for x in xs
+                     if x != ('lit', None) and isinstance(x[1], str) == (kt == 'S')
+                     and not isinstance(x[1], (list, dict))] or pool)
+                    for _ in range(rng.randint(2, 3))]
+                v = self.newvar(env, kt)
+                body.append(('in', ('var', v), ('list', tuple(els))))
+                keys.append((v, kt))
+                self.labels.add('hazard_rule_in_list')
             prev = [n for n in getattr(self, 'hazard_preds', []) if n in self.concrete]
             if prev and rng.random() < 0.5:
                 before = set(env)
